@@ -78,7 +78,23 @@ def make_scenarios(ctx):
             else:
                 sc.config.pop("scalars", None)
             out.append(sc)
-    return out
+    return out + corpus_scenarios()
+
+
+def corpus_scenarios():
+    """Minimised inputs of the listed finding classes that the random streams hit rarely (run every time)."""
+    sdl = ("input In { fooBar: Int foo_bar: Int other: String }\n"
+           "type Query { f(i: In, s: String, t: String, n: Int): Int }\n")
+    q18 = "query Collide($i: In!) { f(i: $i) }\n"
+    q7 = ("query Locals($query: String, $_query: String) { f(s: $query, t: $_query) }\n\n"
+          "query Shadow($gql: Int) { f(n: $gql) }\n")
+    cfg = {"async_client": False}
+    return [
+        scenario.Scenario(seed=900001, sdl=sdl, queries=q18, config=dict(cfg, convert_to_snake_case=True),
+                          features=("corpus:F18",), files={"vscal.py": argenc.VSCAL}),
+        scenario.Scenario(seed=900002, sdl=sdl, queries=q7, config=dict(cfg, convert_to_snake_case=False),
+                          features=("corpus:F7",), files={"vscal.py": argenc.VSCAL}),
+    ]
 
 
 def type_shape(t):
@@ -458,7 +474,11 @@ def check_call(ctx, g, op, vds, c, names_ok, inputs_ok, f10_bad, stats, f21_ok=T
                 if n not in cs or n not in ci or not same_value(cs[n], ci[n]):
                     problems.append(f"${n}: server receives {cs.get(n, '<absent>')!r}, caller meant {ci.get(n, '<absent>')!r}")
                     involved.add(n)
-            if not problems and jdump(sent["rec"]) != jdump(intended["rec"]):
+            if sent.get("exec_exc") or intended.get("exec_exc"):
+                # the sent DOCUMENT cannot be executed (seen: a transitively spread fragment is not included) --
+                # C02's subject; the variables were still coerced and compared above
+                run.dist("skipped", "resolver-comparison:sent-document-not-executable(C02)")
+            elif not problems and jdump(sent["rec"]) != jdump(intended["rec"]):
                 problems.append("resolver arguments differ from those under the caller's values")
         sv = sent_vars or {}
         for n, v in c.vals.items():
